@@ -1,5 +1,5 @@
 _X = ('xfer', 40, 800)
-_M = ('migrate', 12, 200)
+_M = ('migrate', 12, 200, [3000061])   # corpus seed: stall after a failed path validation (fixed in 8371620)
 PROPS = {
     'C02': dict(sim=[_X, _M],
                 modelled='set_loss_detection_timer / pto_time_and_space / loss_time_and_space (timer arming decision incl. the client anti-deadlock rule), the send gate of poll_transmit (probes and close exempt from congestion control and pacing), the anti-amplification gate; at every quiescent point of every simulated connection the armed-timer requirement derived by the Lean model is compared with the harness and checked against the real timer table (oracle unarmed-timer)',
